@@ -16,6 +16,7 @@ import (
 	"github.com/kercylan98/vivid/internal/verif/vexp"
 	"github.com/kercylan98/vivid/internal/verif/vrt"
 	"github.com/kercylan98/vivid/internal/verif/vsys"
+	"github.com/kercylan98/vivid/pkg/ves"
 )
 
 type req struct{ ID string }
@@ -26,7 +27,7 @@ type params struct {
 	perAsk  int    // asks per asker
 	replier string // once | twice | never | slow (replies on release)
 	timeout time.Duration
-	kill    string // none | asker | asker-respawn
+	kill    string // none | asker | asker-respawn | asker-respawn-racing (an actor reacting to ActorKilledEvent re-spawns the asker's name at once and lets the successor Ask)
 	mix     bool   // the first Ask of a burst uses the default (5 s) timeout, the later ones p.timeout
 }
 
@@ -48,6 +49,7 @@ type pending struct {
 	done   bool
 	made   int64
 	eff    time.Duration // its timeout
+	inc    int           // incarnation of the asker's name that issued it (0 = the one that is killed)
 }
 
 func errStr(e error) string {
@@ -107,6 +109,7 @@ func scenario(p params, bounds []int) *vexp.Scenario {
 			w.SpawnRoot(rep)
 			repRef := w.Ref("/rep")
 			gen := 0
+			incarnation := 0
 			mkAsker := func(name string) *vsys.Script {
 				s := &vsys.Script{Name: name}
 				s.OnMsg = func(a *vsys.Act, ctx vivid.ActorContext, m vsys.Msg) {
@@ -125,7 +128,7 @@ func scenario(p params, bounds []int) *vexp.Scenario {
 						} else {
 							f = ctx.Ask(repRef, req{ID: id}, p.timeout)
 						}
-						pd := &pending{id: id, asker: name, fut: f, made: t0, eff: eff}
+						pd := &pending{id: id, asker: name, fut: f, made: t0, eff: eff, inc: incarnation}
 						pend = append(pend, pd)
 						vrt.Go("waiter-"+id, func() {
 							v, err := f.Result()
@@ -139,6 +142,21 @@ func scenario(p params, bounds []int) *vexp.Scenario {
 			for _, n := range names {
 				w.SpawnRoot(mkAsker(n))
 			}
+			if p.kill == "asker-respawn-racing" {
+				resp := &vsys.Script{Name: "resp"}
+				resp.Launch = func(a *vsys.Act, ctx vivid.ActorContext) { ctx.EventStream().Subscribe(ctx, ves.ActorKilledEvent{}) }
+				resp.OnOther = func(a *vsys.Act, ctx vivid.ActorContext, m any) {
+					if e, ok := m.(ves.ActorKilledEvent); ok && e.ActorRef.GetPath() == "/a1" && incarnation == 0 {
+						incarnation = 1
+						if _, err := w.SpawnRoot(mkAsker("a1")); err != nil {
+							x.Logf("respawn a1: %v", err)
+							return
+						}
+						ctx.Tell(w.Ref("/a1"), vsys.Msg{ID: "ask"})
+					}
+				}
+				w.SpawnRoot(resp)
+			}
 			vrt.QuiesceNoTimers()
 			for _, n := range names {
 				w.Sys.Tell(w.Ref("/"+n), vsys.Msg{ID: "ask"})
@@ -150,6 +168,7 @@ func scenario(p params, bounds []int) *vexp.Scenario {
 			}
 			if p.kill == "asker-respawn" {
 				vrt.QuiesceNoTimers()
+				incarnation = 1
 				// a new actor under the same name asks again; then the late reply to the old request arrives
 				if _, err := w.SpawnRoot(mkAsker("a1")); err != nil {
 					x.Logf("respawn a1: %v", err)
@@ -195,6 +214,9 @@ func scenario(p params, bounds []int) *vexp.Scenario {
 						x.Fail("dead-asker-completes-its-asks", "Ask %s was still pending when its asker terminated at %v, yet it only completed by its own timeout at %v instead of with the actor-dead error", pd.id, time.Duration(askerDiedAt), time.Duration(pd.doneAt))
 					}
 				case pd.err == "deaded":
+					if pd.inc > 0 {
+						x.Fail("dead-only-if-asker-died", "Ask %s was issued by the actor that took over the name %s after its predecessor had terminated; it is alive, yet its Ask failed with the actor-dead error", pd.id, pd.asker)
+					}
 					if p.kill == "none" || pd.asker != "a1" {
 						x.Fail("dead-only-if-asker-died", "Ask %s failed with actor-dead but its asker was not killed", pd.id)
 					}
@@ -247,6 +269,10 @@ func build(tier string) []*vexp.Scenario {
 			out = append(out, scenario(params{askers: 2, perAsk: 1, replier: rp, timeout: to, kill: "asker"}, bounds))
 			out = append(out, scenario(params{askers: 1, perAsk: 2, replier: rp, timeout: to, kill: "asker"}, bounds))
 		}
+	}
+	// the asker's name is taken over the moment the predecessor is reported terminated; the successor's Asks are its own
+	for _, rp := range []string{"once", "slow", "never"} {
+		out = append(out, scenario(params{askers: 1, perAsk: 1, replier: rp, timeout: time.Second, kill: "asker-respawn-racing"}, []int{0, 1, 2}))
 	}
 	// an Ask whose timer fires while it is being registered, next to a long-lived Ask of the same asker, then the asker dies
 	for _, rp := range []string{"never", "slow"} {
